@@ -423,12 +423,12 @@ def check(rep: Report, tier: str, seed: int) -> None:
     one_tape(rep, w["n"], w["times"], w["tape"], lines, pending, "d10-witness")
 
     # 1. random adversarial tapes
-    tape_cases(rep, rng, 700 if quick else 30000, lines, pending, sizes=(2, 3) if quick else (2, 3, 4))
+    tape_cases(rep, rng, 700 if quick else 12000, lines, pending, sizes=(2, 3) if quick else (2, 3, 4))
 
     # 2. exhaustive crossing patterns: every above/below-threshold word, two grids, 2 sites
     L = 8 if quick else 12
     for grid in ([0.0, 8.0, 16.0, 24.0], [0.0, 0.5, 1.0]):
-        for ln in range(1, L + 1):
+        for ln in range(1, (L if grid[1] > 1 else min(L, 10)) + 1):
             words = itertools.product((0.9, 0.3), repeat=ln)
             if quick and ln > 6:
                 words = [tuple(rng.choice((0.9, 0.3)) for _ in range(ln)) for _ in range(40)]
@@ -437,7 +437,7 @@ def check(rep: Report, tier: str, seed: int) -> None:
                 one_tape(rep, 2, grid, tape, lines, pending, "exhaustive")
 
     # 3. single sweep_complete calls from arbitrary states (same driver batch)
-    cases = [gen_nsc(rng) for _ in range(400 if quick else 20000)]
+    cases = [gen_nsc(rng) for _ in range(400 if quick else 8000)]
     ios = [impl_nsc(c) for c in cases]
     drv = Driver()
     try:
